@@ -39,7 +39,7 @@ def _d3(version):
 
 
 QTEXT = {"q1": "$[?@.a == $.x]", "q2": "$[?f(@.a)]", "q3": "$..[?@[?@ == $.x]]",
-         "q4": "$[?match(@.s, 'a.') || search(@.s, 'a.')]", "q5": "$.k3[2]", "q6": "$[?@.a == ]"}
+         "q4": "$[?match(@.s, 'a.') || search(@.s, 'a.')]", "q5": "$.k3[2]", "q6": "$[?@.a == ]", "q7": "$..s"}
 
 
 class World:
